@@ -89,4 +89,32 @@ theorem binop_left_failure_short_circuits (ok : Bool) (s1 : Sel) (a1 : Bool) (rq
     · simp [h, Except.isOk, Except.toBool] at hf
     · subst hf; simp [closeAll_opened]
 
+/-- closing does not open: what a metric evaluation has opened is what `build` opened -/
+theorem eval_opened_eq_build (q : Q) (st : St) (hq : q.isMetric = true) :
+    (eval q st).2.opened = (build q st).2.opened := by
+  rw [eval_metric q st hq]
+  rcases h : build q st with ⟨(e | it), st1⟩ <;> simp [closeAll_opened]
+
+theorem build_vecAgg_opened (ok : Bool) (q : Q) (st : St) :
+    (build (.vecAgg ok q) st).2.opened = (build q st).2.opened := by
+  simp only [build]
+  rcases h : build q st with ⟨(e | it), st1⟩
+  · simp
+  · cases ok <;> simp [closeAll_opened]
+
+theorem build_litOp_opened (q : Q) (st : St) :
+    (build (.litOp q) st).2.opened = (build q st).2.opened := by
+  simp only [build]
+  rcases h : build q st with ⟨(e | it), st1⟩ <;> simp
+
+/-- vector aggregations and literal operands open nothing of their own: the readers of
+`sum by (..) (q)`, `q * 2`, … are the readers of `q`, also when the wrapper cannot be built -/
+theorem eval_wrapper_opened (q : Q) (st : St) (hq : q.isMetric = true) (ok : Bool) :
+    (eval (.vecAgg ok q) st).2.opened = (eval q st).2.opened ∧
+    (eval (.litOp q) st).2.opened = (eval q st).2.opened := by
+  rw [eval_opened_eq_build (.vecAgg ok q) st (by simpa [Q.isMetric] using hq),
+      eval_opened_eq_build (.litOp q) st (by simpa [Q.isMetric] using hq),
+      eval_opened_eq_build q st hq, build_vecAgg_opened, build_litOp_opened]
+  exact ⟨rfl, rfl⟩
+
 end Resources
